@@ -13,13 +13,13 @@ LEVEL = 'exploration'
 RULE = ('Queries (lat, lon, h, date): lat uniform in [-90,90] plus 90-10**U(-9,-1) of either sign plus exact +-90 and 0; lon '
         'in [-180,180] incl. 0, +-180; h in [-1,850] km; date = 2015 + k/10, k in 0..150, with the epoch boundaries 2019.9 / '
         '2020.0 / 2024.9 / 2025.0 / 2030.0 over-weighted. Each query is asked through WMM().magnetic_field(..., date=float) on an '
-        'object that has already answered 0-3 other queries (other places and dates, usually from another coefficient file) and through the constructor. Oracle: own degree-12 Schmidt semi-normalised synthesis (explicit Legendre '
+        'object that has already answered 0-3 other queries (other places and dates, usually from another coefficient file; one in three at the station of the query itself, at another height) and through the constructor. Oracle: own degree-12 Schmidt semi-normalised synthesis (explicit Legendre '
         'polynomials with exact rational coefficients, own COF parser, own geodetic->geocentric conversion), X,Y,Z within 1e-7 + '
         '2.8e5*min(1.5e-8, 2.2e-16/colatitude) nT, and the coefficient file / epoch used must be the one of the date\'s lustrum. '
         'Non-trivial: |lat| < 89.9, h != 0, date not an epoch start; distinct = case hash.')
 ASSUMPTIONS = ['the oracle reproduces the official WMM2020 test values to 0.05 nT (self-test at start-up)',
                'near the poles the package computes the geocentric latitude with arcsin(z/r): tolerance term 2.8e5*2.2e-16/colat nT']
-REQUIRED_LABELS = ['field:history_crosses_models', 'field:lat=pole', 'field:lat=near_pole', 'field:lat=equator', 'field:model=WMM2015', 'field:model=WMM2020',
+REQUIRED_LABELS = ['field:history_same_site', 'field:history_crosses_models', 'field:lat=pole', 'field:lat=near_pole', 'field:lat=equator', 'field:model=WMM2015', 'field:model=WMM2020',
                    'field:model=WMM2025', 'field:date=boundary']
 
 
@@ -88,7 +88,14 @@ def evaluate(case, ctx):
             if len({min(x, 149)//50 for x in hist + [k]}) > 1:
                 ctx.label('history_crosses_models')
         for j, kj in enumerate(hist):
-            ctx.call('magnetic_field[history]', lambda: w.magnetic_field(-lat/2 + j, lon/3, 10.0*j, date=2015 + kj/10))
+            if kj % 3 == 0:
+                # an altitude profile over the station of the query: same latitude and longitude, another height (and the
+                # query's own date for every other such entry) -- whatever the object keeps per site must not outlive the height
+                ctx.label('history_same_site')
+                hj = (h + 97.0*(j + 1)) % 851.0
+                ctx.call('magnetic_field[history]', lambda: w.magnetic_field(lat, lon, hj, date=date if kj % 2 else 2015 + kj/10))
+            else:
+                ctx.call('magnetic_field[history]', lambda: w.magnetic_field(-lat/2 + j, lon/3, 10.0*j, date=2015 + kj/10))
         ok, _ = ctx.call(f'magnetic_field|{cls}', lambda: w.magnetic_field(lat, lon, h, date=date))
         if ok:
             judge('magnetic_field', w)
